@@ -34,7 +34,8 @@ type wfGen struct {
 // error flavours a scripted callback can fail with (see mkErr)
 var errFlavors = []int{1, 2, 3, 4, 7, 8, 9, 10, 11}
 
-var prefixActions = []string{"a", "ab", "abc", "", "default"}
+// (prefixes of each other, a case variant, the empty and the default action)
+var prefixActions = []string{"a", "ab", "abc", "Ab", "", "default"}
 
 func draw[T any](rt *rapid.T, g *rapid.Generator[T], label string) T { return g.Draw(rt, label) }
 
